@@ -12,3 +12,4 @@ echo "== c17_queue (expect: late: HANG, SUCC-0 displayed=false; two: HANG, SUCC-
 go run ./cmd/c17_queue
 T=$(mktemp -d /var/tmp/realrepro.XXXX); go build -tags verif -o $T/nq_vanish ./cmd/nq_vanish || exit 2
 echo "== nq_vanish (expect: VANISHED)"; $T/nq_vanish | tail -2; rm -rf $T
+echo "== pop clipped (expect: FAIL with POP-CLIPPED)"; REPLAY_KNOWN=1 go test -count=1 -run TestKnownPopClipped . 2>&1 | grep -E "POP-CLIPPED|^ok|^FAIL" | head -3
